@@ -313,7 +313,8 @@ func init() {
 	}
 	for _, js := range []string{`[["==", ".s[1:]", "x"]]`, `[["like", ".s[:-1]", "*"]]`, `[["==", ".s[-2:]", "x"], ["==", ".s[0:1]", "y"]]`, `[["all", ".l", ["==", ".[1:]", "x"]]]`,
 		`[["==", ".a", 1]]`, `[["all", ".b", [">", ".", 0]]]`, `[["like", ".s", "h*o"]]`, `[["any", ".[]", ["==", ".c?", "x"]]]`,
-		`[["not", ["and", [["<", ".m.x", 2.0], ["or", [["==", ".[0]", 1], [">=", ".a[-1]?", 0]]]]]]]`, `[["==", ".b[1:]", [2]]]`} {
+		`[["not", ["and", [["<", ".m.x", 2.0], ["or", [["==", ".[0]", 1], [">=", ".a[-1]?", 0]]]]]]]`, `[["==", ".b[1:]", [2]]]`,
+		`[[">", ".a", 0]]`, `[["<=", ".a", 5], [">=", ".m.x", 1]]`, `[["==", ".m", {"x": 1}]]`, `[["any", ".b", ["<", ".", 3]]]`, `[["not", ["==", ".a", 7]]]`, `[["==", ".", [1, 1]]]`} {
 		p, err := policy.FromDagJson(js)
 		if err == nil {
 			probePolicies = append(probePolicies, p)
@@ -578,6 +579,21 @@ func hostileContainers() map[string][]byte {
 	out["cbor-list-2^20-declared"] = []byte{0x9a, 0x00, 0x10, 0x00, 0x00, 0x01}
 	out["cbor-bytes-2^23-declared"] = []byte{0x5a, 0x00, 0x80, 0x00, 0x00, 0x01}
 	out["cbor-ctn-map-2^20-declared"] = append([]byte{0xa1, 0x66, 'c', 't', 'n', '-', 'v', '1', 0x81}, 0xba, 0x00, 0x10, 0x00, 0x00)
+	// argument data holding integers that DAG-CBOR can carry and int64 cannot (unsigned above 2^63-1, negative below
+	// -2^63), where the probe policies look: as a value, in a list, in a nested map, as the whole datum
+	{
+		u := []byte{0x1b, 0xff, 0xff, 0xff, 0xff, 0xff, 0xff, 0xff, 0xff}
+		u63 := []byte{0x1b, 0x80, 0, 0, 0, 0, 0, 0, 0}
+		neg := []byte{0x3b, 0xff, 0xff, 0xff, 0xff, 0xff, 0xff, 0xff, 0xff}
+		cat := func(parts ...[]byte) []byte { return bytes.Join(parts, nil) }
+		for name, v := range map[string][]byte{"uint64-max": u, "uint64-2^63": u63, "negint-min": neg} {
+			out["data-"+name+"-field"] = cat([]byte{0xa2, 0x61, 'a'}, v, []byte{0x61, 's', 0x61, 'x'})
+			out["data-"+name+"-in-list"] = cat([]byte{0xa2, 0x61, 'b', 0x82}, v, []byte{0x01, 0x61, 'l', 0x81}, v)
+			out["data-"+name+"-in-map"] = cat([]byte{0xa1, 0x61, 'm', 0xa1, 0x61, 'x'}, v)
+			out["data-"+name+"-top-list"] = cat([]byte{0x82}, v, []byte{0x01})
+			out["data-"+name+"-top"] = v
+		}
+	}
 	out["cbor-nested-arrays"] = bytes.Repeat([]byte{0x81}, 200000)
 	out["cbor-nested-maps"] = bytes.Repeat([]byte{0xa1, 0x61, 'a'}, 100000)
 	out["cbor-nested-tags"] = bytes.Repeat([]byte{0xd8, 0x2a}, 100000)
